@@ -336,11 +336,11 @@ Proof.
       destruct (sim_aget_Some _ _ _ _ _ _ _ S A B) as [M L] end.
     apply sim_aset; [assumption|assumption|]. now apply SL_snoc.
   - (* insert_many *)
-    destruct Os as [<- F2]. destruct P as [m0 [cur0 [A0 Lv]]].
+    destruct Os as [<- F2]. destruct P as [mP [curP [A0 Lv]]].
     match goal with A : aget _ s1 = Some _, B : aget _ s2 = Some _ |- _ =>
       destruct (sim_aget_Some _ _ _ _ _ _ _ S A B) as [M L];
       rewrite (evs_of_Some _ _ _ _ A), (evs_of_Some _ _ _ _ B) in F2; rewrite A in A0 end.
-    inversion A0; subst m0 cur0. apply sim_aset; [assumption|assumption|].
+    inversion A0; subst mP curP. apply sim_aset; [assumption|assumption|].
     destruct L as [f [Inj ->]].
     match goal with X : spec_many es _ _, Y : spec_many (map (rename f) es) _ _ |- _ =>
       eapply (SL_many _ _ _ X f f _ _ _ Y Inj eq_refl) end.
